@@ -189,7 +189,7 @@ class Driver:
         if p.returncode != 0:
             raise RuntimeError(f'dwdriver exited {p.returncode}: {p.stderr[-2000:]!r}')
         outs = [None] * len(reqs)
-        for line in p.stdout.decode('utf-8', 'replace').splitlines():
+        for line in p.stdout.decode('utf-8', 'replace').split('\n'):
             if not line.strip():
                 continue
             o = json.loads(line)
